@@ -140,7 +140,11 @@ pub fn run(args: &Args) {
                 continue;
             }
             let given: Vec<String> = p["given"].as_array().unwrap().iter().map(|g| g.as_str().unwrap().to_owned()).collect();
-            for (pass, inp) in [("consistent", &i0), ("mixed", &mixed)] {
+            // mole fractions that do not sum to one (the constructor normalises them): the same state must result
+            let mut unnorm = i0.clone();
+            let scale = [100.0, 0.5, 3.7][rng.below(3)];
+            unnorm.x = unnorm.x.iter().map(|v| v * scale).collect();
+            for (pass, inp) in [("consistent", &i0), ("mixed", &mixed), ("unnormalised-x", &unnorm)] {
                 let res = build(&eos, &given, inp, DensityInitialization::None, Some(i0.t * 0.9));
                 tr.ev(json!({"ev":"Build","model":name,"ncomp":n,"given":given,"pass":pass,"inp":inp.json(),"fault":{"field":"none","tag":"none"},"res":res}));
             }
